@@ -13,9 +13,6 @@ theorem incDecParts_id (op x : String) :
 theorem rmCast_cast (e : Node) : (Node.cast e).rmCast = e.rmCast := by
   rw [Node.rmCast]
 
-theorem rmCast1_of_not_cast (r : Node) (h : r.isCast = false) : r.rmCast1 = r := by
-  cases r <;> first | rfl | simp [Node.isCast] at h
-
 /-- `x++;` and friends -/
 theorem compute_unop_incdec (q idx dg op x) (h : Gen.incDec.contains op = true) :
     compute q idx dg (.unop op (.id x)) = (do
@@ -38,20 +35,23 @@ theorem compute_assign_binop (q idx dg aop x op l r) :
     compute q idx dg (.assign aop (.id x) (.binop op l r)) = (do
       let (i, rl) ← binaryOp idx x op l r
       pure ⟨i, rl, false, dg, []⟩) := by
+  have e : (Node.binop op l r).rmCast = .binop op l r := rfl
   rw [compute]
-  simp only [Node.rmCast1]
+  simp only [e]
 
 theorem compute_assign_id (q idx dg aop x y) :
     compute q idx dg (.assign aop (.id x) (.id y)) = (do
       pure ⟨idx, ← idAsgn x y, false, dg, []⟩) := by
+  have e : (Node.id y).rmCast = .id y := rfl
   rw [compute]
-  simp only [Node.rmCast1]
+  simp only [e]
 
 theorem compute_assign_const (q idx dg aop x ty v) :
     compute q idx dg (.assign aop (.id x) (.const ty v)) =
       .ok ⟨idx, constAsgn x, false, dg, []⟩ := by
+  have e : (Node.const ty v).rmCast = .const ty v := rfl
   rw [compute]
-  simp only [Node.rmCast1]
+  simp only [e]
   rfl
 
 theorem compute_assign_unop (q idx dg aop x op e) :
@@ -59,16 +59,16 @@ theorem compute_assign_unop (q idx dg aop x op e) :
       match ← unaryAsgn idx x op e with
       | some (i, rl) => pure ⟨i, rl, false, dg, []⟩
       | none => pure (skip idx dg ["Assignment"])) := by
+  have e : (Node.unop op e).rmCast = .unop op e := rfl
   rw [compute]
-  simp only [Node.rmCast1, Node.cls]
+  simp only [e, Node.cls]
   rfl
 
-/-- one cast around the whole right-hand side is stripped before dispatch -/
-theorem compute_assign_cast (q idx dg aop x r) (h : r.isCast = false) :
+/-- casts around the whole right-hand side (any number) are stripped before dispatch -/
+theorem compute_assign_cast (q idx dg aop x r) :
     compute q idx dg (.assign aop (.id x) (.cast r)) = compute q idx dg (.assign aop (.id x) r) := by
-  have e1 : (Node.cast r).rmCast1 = r := rfl
   rw [compute, compute]
-  simp only [e1, rmCast1_of_not_cast r h, Node.cls]
+  simp only [rmCast_cast, Node.cls]
 
 theorem binaryOp_cast (idx x op l r) :
     binaryOp idx x op (.cast l) (.cast r) = binaryOp idx x op l r := by
